@@ -986,3 +986,55 @@ pub fn run_damage(ops: &[DbOp], keys: &[Vec<u8>]) -> DamageOutcome {
     }
     out
 }
+
+// ---- a table written with one filter policy and read with another (C14 / C01; oracle policy_switch) ----
+/// A filter policy with its own filter format (first byte 0xEE, then length-prefixed keys; exact
+/// membership) whose name sorts BEFORE the name of the built-in Bloom policy.
+#[derive(Debug)]
+pub struct MarkerPolicy;
+impl crate::FilterPolicy for MarkerPolicy {
+    fn get_name(&self) -> String { "A.MarkerPolicy".to_string() }
+    fn create_filter(&self, keys: &[Vec<u8>]) -> Vec<u8> {
+        let mut f = vec![0xEE];
+        for k in keys { f.push(k.len() as u8); f.extend_from_slice(k); }
+        f
+    }
+    fn key_may_match(&self, key: &[u8], serialized_filter: &[u8]) -> Result<bool, crate::filter_policy::FilterPolicyError> {
+        if serialized_filter.first() != Some(&0xEE) { return Ok(false); }
+        let mut i = 1;
+        while i < serialized_filter.len() {
+            let n = serialized_filter[i] as usize;
+            if i + 1 + n <= serialized_filter.len() && &serialized_filter[i + 1..i + 1 + n] == key { return Ok(true); }
+            i += 1 + n;
+        }
+        Ok(false)
+    }
+}
+
+/// Runs the history with the default (Bloom) policy, closes, reopens with `MarkerPolicy` (or, when
+/// `back` is set, writes with MarkerPolicy and reopens with Bloom) and looks every key up.
+pub fn run_policy_switch(ops: &[DbOp], keys: &[Vec<u8>], back: bool) -> Result<Vec<String>, String> {
+    let mut options = DbOptions::with_memory_env();
+    options.create_if_missing = true;
+    if back { options.filter_policy = Arc::new(MarkerPolicy); }
+    {
+        let db = DB::open(options.clone()).map_err(|e| format!("{}", e))?;
+        for op in ops {
+            match op {
+                DbOp::Put(k, v) => db.put(WriteOptions::default(), k.clone(), v.clone()).unwrap(),
+                DbOp::Delete(k) => db.delete(WriteOptions::default(), k.clone()).unwrap(),
+                DbOp::Flush => db.force_memtable_compaction().unwrap(),
+                DbOp::CompactAll => db.compact_range(None..None),
+                _ => {}
+            }
+        }
+    }
+    options.create_if_missing = false;
+    options.filter_policy = if back { Arc::new(crate::BloomFilterPolicy::new(10)) } else { Arc::new(MarkerPolicy) };
+    let db = DB::open(options).map_err(|e| format!("{}", e))?;
+    Ok(keys.iter().map(|k| match db.get(ReadOptions::default(), k) {
+        Ok(v) => format!("value:{}", hexs(&v)),
+        Err(crate::RainDBError::KeyNotFound) => "notfound".to_string(),
+        Err(e) => format!("error:{}", e).replace('\n', " "),
+    }).collect())
+}
